@@ -604,3 +604,46 @@ func init() {
 		Monitors: func() []Monitor { return []Monitor{NewMonC06()} },
 	})
 }
+
+// ---------------------------------------------------------------------------
+// C09: cache entry lifecycle
+
+var longName = "t." + strings.Repeat("x", 4090)
+
+func cacheConfig(t *rapid.T, p *Profile) WorldConfig {
+	cfg := WorldConfig{Resources: defaultResources(), Protocol: p.Protocol, Metrics: true}
+	cfg.Resources = append(cfg.Resources,
+		ResDef{Name: "t.q", Type: "model", Model: map[string]Val{"x": Prim("1")}, QueryMap: map[string]string{"a=1": "a=1", "b=1&a=1": "a=1&b=1", "a=1&b=1": "a=1&b=1"}},
+		ResDef{Name: longName, Type: "model", Model: map[string]Val{"x": Prim("1")}})
+	if HooksEnabled && rapid.IntRange(0, 3).Draw(t, "delay") == 0 {
+		cfg.UnsubDelayMs = 20
+	}
+	return cfg
+}
+
+func init() {
+	rids := []string{"t.a", "t.b", "t.c", "t.d", "t.e", "t.m", "t.q?a=1", "t.q?b=1&a=1", "t.q?a=1&b=1", longName}
+	register(&SimProp{
+		ID: "C09",
+		Profiles: []*Profile{
+			{Name: "c09-lifecycle", MinOps: 8, MaxOps: 50, MaxConns: 4, Versions: []string{"1.2.3", ""}, Protocol: true, Prologue: 40,
+				W: weightsWith(map[string]int{"badreq": 0, "burst": 0, "auth": 1, "call": 4, "new": 1, "mutate": 4, "custom": 1, "silent": 0, "sysreset": 2, "qmutate": 0, "qevent": 2,
+					"delete": 5, "reaccess": 1, "token": 1, "httpget": 3, "httppost": 1, "subscribe": 16, "get": 6, "unsubscribe": 14, "close": 4, "connect": 5, "sleep": 3}),
+				AccessOut: map[string]int{"grant": 12, "deny": 2, "denied": 1, "timeout": 1},
+				GetOut:    map[string]int{"ok": 14, "notfound": 3, "err": 1, "timeout": 2},
+				CallOut:   map[string]int{"resource": 3, "result": 5, "err": 1, "timeout": 1},
+				RIDs:      rids,
+			},
+		},
+		Config:   cacheConfig,
+		Monitors: func() []Monitor { return []Monitor{NewMonC09()} },
+		End: func(w *World) {
+			for _, m := range w.Monitors {
+				if c, ok := m.(*MonC09); ok {
+					c.EndState(w)
+				}
+			}
+		},
+		Trigger: triggerData,
+	})
+}
